@@ -324,8 +324,50 @@ func (e *Exec) evalGhostBuiltin(st *State, call *ast.CallExpr, name string) Term
 		}
 		v := e.eval(st, call.Args[0])
 		return And(Ge(v, Int(0)), Le(v, old.Alloc))
+	case "__called":
+		tv, _ := e.tvOf(call.Args[0])
+		name := strings.Trim(tv.Value.ExactString(), "\"")
+		if o := e.calledObj[name]; o != nil {
+			if v, ok := st.Vars[o]; ok {
+				return v
+			}
+		}
+		e.unsupported(call.Pos(), "__called(%q): no such call in the function", name)
+		return False
+	case "__lastret":
+		tv, _ := e.tvOf(call.Args[0])
+		name := strings.Trim(tv.Value.ExactString(), "\"")
+		tv2, _ := e.tvOf(call.Args[1])
+		i := 0
+		fmt.Sscanf(tv2.Value.ExactString(), "%d", &i)
+		if os := e.lastRetObj[name]; i < len(os) {
+			if v, ok := st.Vars[os[i]]; ok {
+				return v
+			}
+		}
+		e.unsupported(call.Pos(), "__lastret(%q, %d): no such result", name, i)
+		return Int(0)
+	case "__arg":
+		tv, _ := e.tvOf(call.Args[0])
+		i := 0
+		fmt.Sscanf(tv.Value.ExactString(), "%d", &i)
+		if i < len(e.callArgs) {
+			return e.callArgs[i]
+		}
+		e.unsupported(call.Pos(), "__arg(%d) outside a call-site assertion", i)
+		return Int(0)
+	case "__recv":
+		return e.callRecv
 	case "__eq":
 		return Eq(e.eval(st, call.Args[0]), e.eval(st, call.Args[1]))
+	case "__iter":
+		for i := len(e.vis) - 1; i >= 0; i-- {
+			if e.vis[i].cnt != nil {
+				return st.Vars[e.vis[i].cnt]
+			}
+		}
+		e.unsupported(call.Pos(), "__iter outside a range-over-map loop")
+		return Int(0)
 	case "__idx":
 		for i := len(e.vis) - 1; i >= 0; i-- {
 			if e.vis[i].iter != nil {
@@ -775,12 +817,18 @@ func (e *Exec) designators(st *State, c *Contract, text string, sc *clauseScope)
 		}
 		return []designator{{key: e.ptrKey(elem), ref: ref}}
 	case *ast.CallExpr:
+		var gid *ast.Ident
 		if id, ok := v.Fun.(*ast.Ident); ok {
+			gid = id
+		} else if sel, ok := v.Fun.(*ast.SelectorExpr); ok {
+			gid = sel.Sel
+		}
+		if id := gid; id != nil {
 			if fn, ok := e.objOf(id).(*types.Func); ok {
 				if pc := e.P.PC[pkgPathOf(fn)]; pc != nil && pc.GhostFields[fn.Name()] {
 					ref := e.eval(sub, v.Args[0])
 					sig := fn.Type().(*types.Signature)
-					k := e.ghostKey(pkgPathOf(fn), strings.TrimPrefix(fn.Name(), "g_"), sig.Results().At(0).Type())
+					k := e.ghostKey(pkgPathOf(fn), strings.TrimPrefix(fn.Name(), "G_"), sig.Results().At(0).Type())
 					return []designator{{key: k, ref: ref}}
 				}
 			}
@@ -998,6 +1046,7 @@ func (e *Exec) callContract(st *State, call *ast.CallExpr, fn *types.Func, c *Co
 		}
 		e.havocKeys(st, keys)
 	}
+	e.havocMemo(st)
 	na := e.Ctx.Fresh("alloc", SInt)
 	e.Ctx.Assume(st.PC, Ge(na, st.Alloc))
 	st.Alloc = na
@@ -1027,6 +1076,21 @@ func (e *Exec) callContract(st *State, call *ast.CallExpr, fn *types.Func, c *Co
 		if err := e.P.CheckClause(c, en, sc.pos, sc); err != nil {
 			e.unsupported(call.Pos(), "%v", err)
 			continue
+		}
+		// locals of the callee mentioned by the clause are existential witnesses for the caller
+		if sc.decl != nil && sc.decl.Body != nil {
+			ast.Inspect(en.Expr, func(n ast.Node) bool {
+				if id, ok := n.(*ast.Ident); ok {
+					if o, ok := e.P.CInfo.Uses[id].(*types.Var); ok && !o.IsField() && o.Pos() > sc.decl.Body.Lbrace && o.Pos() < sc.decl.Body.Rbrace {
+						if _, has := post.Vars[o]; !has {
+							w := e.Ctx.Fresh("wit_"+o.Name(), e.S.SortOf(o.Type()))
+							e.assumeType(post, w, o.Type())
+							post.Vars[o] = w
+						}
+					}
+				}
+				return true
+			})
 		}
 		t := e.evalSpec(post, en)
 		e.assume(st, t)
